@@ -115,13 +115,26 @@ def run(tier):
         scen.append({"meta": {"fam": "batch", "carrier": "counting", "n": n, "gcols": ["k1"], "gout": ["kk"], "aggs": aggs},
                      "sql": "SELECT %s AS kk, count(*) AS c, collect(id) AS ids FROM stream GROUP BY %s, CountingWindow(%d)" % (key, key, n), "rows": rows, "norename": True})
     # bursts: the producer outruns the counting-window goroutine (held at its first row) by more rows than the window's
-    # input queue holds (50 by default): every row still counts, in order
+    # input queue holds (200 here): every row still counts, in order
     for _ in range(8 if quick else 200):
         n = rng.choice([2, 3, 5])
         keys = [("k%d" % i,) for i in range(rng.choice([1, 2, 4]))]
-        sc = scenario(n, [rng.choice(keys) for _ in range(rng.choice([70, 90, 130]))], rng, "mix")
+        sc = scenario(n, [rng.choice(keys) for _ in range(rng.choice([260, 300, 330]))], rng, "mix")
         sc["burst"] = True
         sc["hold"] = "cw.row"
+        # one option sizes the window's input AND output queue: 200 is less than the burst (the input queue is overrun) and more than the
+        # batches the burst can fire once the goroutine is released (at most one per two rows: the output queue never overflows - assumption)
+        sc["perf"] = {"winout": 200}
+        scen.append(sc)
+    # the input buffer has to be EXPANDED (several times) while the rows come in: the stream's consumer goroutine is held inside the window's
+    # Add of the first row (it holds no buffer reference there, so the recorded reorder race of C19 cannot occur): each row counts once, in order
+    for _ in range(6 if quick else 150):
+        n = rng.choice([2, 3, 5])
+        keys = [("k%d" % i,) for i in range(rng.choice([1, 2, 3]))]
+        sc = scenario(n, [rng.choice(keys) for _ in range(rng.choice([60, 90, 140]))], rng, "mix")
+        sc["burst"] = True
+        sc["hold"] = "cw.add"
+        sc["perf"] = {"strategy": "expand", "data": rng.choice([2, 4, 8]), "max": 1024, "mininc": 4, "winout": 1024}
         scen.append(sc)
     # bursts without a gate under each overflow strategy (buffers large enough to lose nothing): batches that fire within microseconds
     # of each other are still delivered per key in firing order
